@@ -117,8 +117,55 @@ func c08WaitRun(c *Ctx, cs c08WaitCase) {
 	}
 }
 
+// c08SlowReply: a valid acceptance whose last packet arrives slowly (see
+// lpOptions.Trickle) well inside the caller's context of 10 s: Login must
+// succeed. The pauses are measured; a run in which one reached 800 ms says
+// nothing and is repeated, a failing Login is run once more and reported only
+// if it fails again.
+func c08SlowReply(c *Ctx, cs c08WaitCase) {
+	r := c.R
+	r.Eval(1)
+	b, _ := json.Marshal(struct{ K, N string }{cs.Kind, cs.Name})
+	rt.CaseLog("C08 wait %s", b)
+	encrypt := cs.Script.Flow == "encrypted"
+	judged, bad := 0, 0
+	var lastErr error
+	for attempt := 0; attempt < 6 && judged < 2 && bad == judged; attempt++ {
+		res := lpRun(c.Seed, cs.Script, lpConfig("sa", "secret-Pw1", encrypt), lpOptions{CutSeed: string(b), CutClass: "one-packet", Timeout: 10 * time.Second, Trickle: true})
+		if res.kit == nil {
+			r.Inconclusive("setup: %v", res.err)
+			return
+		}
+		res.kit.teardown()
+		if res.panicked != nil {
+			r.Violate("panic/"+res.panicked.Frame+"/wait/"+cs.Kind, fmt.Sprintf("script %s (%s): Login panicked: %s", cs.Name, cs.Kind, res.panicked.Value), cs)
+			return
+		}
+		if !res.paceOK || res.watchdog {
+			r.Count("slow_reply_runs_without_verdict", 1)
+			continue
+		}
+		judged++
+		r.Count("slow_reply_transient_eof_reads", res.softReads)
+		if res.err != nil {
+			bad++
+			lastErr = res.err
+		}
+	}
+	if judged > 0 {
+		r.Distinct(string(b))
+		r.Count("slow_reply_logins_judged", int64(judged))
+	}
+	if judged >= 2 && bad == judged {
+		r.Violate("valid-acceptance-rejected/slow-reply/"+cs.Script.Flow, fmt.Sprintf("script %s: the server's last reply packet arrived in pieces 400 ms apart (PacketReadTimeout 1 s, reads in between return (0, io.EOF)), completely and well inside the caller's 10 s context; Login returned %v (twice in a row)", cs.Name, lastErr), cs)
+	}
+}
+
 func runC08Wait(c *Ctx) {
 	scripts := c08WaitScripts()
+	for _, n := range []string{"plain-valid", "enc-valid"} {
+		c08SlowReply(c, c08WaitCase{Family: "wait", Kind: "slow-reply", Name: n, Script: scripts[n], Cut: "one-packet"})
+	}
 	var names []string
 	for n := range scripts {
 		names = append(names, n)
